@@ -117,7 +117,7 @@ def run_proofs(prop, tier):
         out['detail'].append('forbidden constructs: ' + '; '.join(forb[:5]))
     if thms:
         # axiom audit
-        src = 'import LexgenModel.Props.%s\n' % prop + ''.join('#print axioms %s\n' % t for t in thms)
+        src = 'import LexgenModel.Props.%s\nopen Lexgen\n' % prop + ''.join('#print axioms %s\n' % t for t in thms)
         if prop == 'C13':
             src = 'import LexgenModel.Generated.TablesCheck\n' + src
         af = os.path.join(LEAN, '.lake', 'audit_%s.lean' % prop)
